@@ -24,3 +24,7 @@ pub fn param_from_iso2(t: &Iso2) -> T2Storage {
     let z = t.rotation.angle();
     T2Storage::new(v.x, v.y, z)
 }
+
+// Verification hook (see /verif/MANIFEST.json): compiled only by `cargo kani` or with `--cfg engeom_verif`.
+#[cfg(any(kani, engeom_verif))]
+pub use jacobian::point_surface_jacobian as verif_point_surface_jacobian;
